@@ -148,15 +148,11 @@ theorem freeTable_eq (t : Table) (w : World) : freeTable t w = freeAll (tableOrd
 def insOrder : List (Option Tok) → List (Option Tok) → List (Option Tok)
   | s :: ss, e :: es => s :: e :: insOrder ss es
   | s :: ss, [] => s :: insOrder ss []
-  | [], e :: es => e :: insOrder [] es
-  | [], [] => []
+  | [], es => es
 
 theorem freeIns_eq (ss es : List (Option Tok)) (w : World) : freeIns ss es w = freeAll (insOrder ss es) w := by
   induction ss generalizing es w with
-  | nil =>
-    induction es generalizing w with
-    | nil => simp [freeIns, insOrder, freeAll]
-    | cons e es ih => simp [freeIns, insOrder, freeAll, ih]
+  | nil => simp [freeIns, insOrder]
   | cons s ss ih =>
     cases es with
     | nil => simp [freeIns, insOrder, freeAll, ih]
@@ -169,11 +165,7 @@ theorem freeIns_eq (ss es : List (Option Tok)) (w : World) : freeIns ss es w = f
 theorem count_ptrs_insOrder (ss es : List (Option Tok)) (u : Tok) :
     (ptrs (insOrder ss es)).count u = (ptrs ss).count u + (ptrs es).count u := by
   induction ss generalizing es with
-  | nil =>
-    induction es with
-    | nil => simp [insOrder]
-    | cons e es ih =>
-      cases e <;> simp_all [insOrder, List.count_cons] <;> omega
+  | nil => simp [insOrder]
   | cons s ss ih =>
     cases es with
     | nil =>
@@ -326,6 +318,436 @@ theorem release_total (c : MCtx) (w : World) (hwf : c.module.wf = true)
     rw [hr2, hr1]
     refine ⟨a, ?_, rfl, rfl, hpt, d⟩
     intro u; rw [← hcount u]; exact e u
+
+
+
+/-- the live heap is exactly the frame `B` plus the blocks the player fields point to -/
+def Owns (p : Player) (w : World) (B : List Tok) : Prop := ∀ u, w.live.count u = B.count u + p.toks.count u
+
+theorem free_fields (p p' : Player) (w : World) (B : List Tok) (fs : List (Option Tok)) (hO : Owns p w B)
+    (hsplit : ∀ u, p.toks.count u = p'.toks.count u + (ptrs fs).count u) :
+    Owns p' (freeAll fs w) B ∧ (freeAll fs w).bad = w.bad := by
+  have hsub : Sub (ptrs fs) w.live := by
+    intro u; have := hO u; have := hsplit u; omega
+  obtain ⟨a, _, _, _, e⟩ := freeAll_spec fs w hsub
+  refine ⟨?_, a⟩
+  intro u
+  have := e u; have := hO u; have := hsplit u
+  omega
+
+theorem ptrs_map_none (l : List (Option Tok)) : ptrs (l.map fun _ => none) = [] := by
+  induction l with
+  | nil => rfl
+  | cons a l ih => simpa using ih
+
+/-- concretisation of the abstract unwinding state -/
+def Rel (a : Abs) (p : Player) : Prop :=
+  (a.mixer = false → p.buffer = none ∧ p.buf32 = none) ∧
+  (a.virt = false → p.voiceArray = none ∧ p.virtChannel = none ∧ ptrs p.paula = []) ∧
+  (a.flow = false → p.flowLoop = none) ∧
+  (a.xc = false → p.xcData = none) ∧
+  (a.extras = false → ptrs p.chanExtra = []) ∧
+  (a.vaOk = true → (p.voiceArray.isSome ∨ p.paula = [])) ∧
+  (a.xcOk = true → (p.xcData.isSome ∨ p.chanExtra = []))
+
+theorem toks_count (p : Player) (u : Tok) :
+    p.toks.count u = (ptrs [p.buffer, p.buf32, p.voiceArray]).count u + (ptrs p.paula).count u
+      + (ptrs [p.virtChannel, p.flowLoop, p.xcData]).count u + (ptrs p.chanExtra).count u := by
+  simp [Player.toks, List.count_append]
+  omega
+
+theorem doAction_step (act : Action) (a a' : Abs) (p : Player) (w : World) (B : List Tok)
+    (hstep : absStep act a = some a') (hR : Rel a p) (hO : Owns p w B) :
+    Rel a' (doAction act p w).1 ∧ Owns (doAction act p w).1 (doAction act p w).2 B ∧ (doAction act p w).2.bad = w.bad := by
+  obtain ⟨r1, r2, r3, r4, r5, r6, r7⟩ := hR
+  cases act with
+  | unknown => simp [absStep] at hstep
+  | mixerOff =>
+    simp only [absStep, Option.some.injEq] at hstep
+    subst hstep
+    have hw : (doAction .mixerOff p w).2 = freeAll [p.buffer, p.buf32] w := rfl
+    have hp : (doAction .mixerOff p w).1 = { p with buffer := none, buf32 := none } := rfl
+    rw [hw, hp]
+    have := free_fields p { p with buffer := none, buf32 := none } w B [p.buffer, p.buf32] hO (by
+      intro u; rw [toks_count, toks_count]
+      cases p.buffer <;> cases p.buf32 <;> cases p.voiceArray <;> simp [List.count_cons] <;> omega)
+    refine ⟨⟨?_, ?_, ?_, ?_, ?_, ?_, ?_⟩, this.1, this.2⟩ <;> simp_all
+  | flowLoop =>
+    simp only [absStep, Option.some.injEq] at hstep
+    subst hstep
+    have hw : (doAction .flowLoop p w).2 = freeAll [p.flowLoop] w := rfl
+    have hp : (doAction .flowLoop p w).1 = { p with flowLoop := none } := rfl
+    rw [hw, hp]
+    have := free_fields p { p with flowLoop := none } w B [p.flowLoop] hO (by
+      intro u; rw [toks_count, toks_count]
+      cases p.flowLoop <;> cases p.virtChannel <;> cases p.xcData <;> simp [List.count_cons] <;> omega)
+    refine ⟨⟨?_, ?_, ?_, ?_, ?_, ?_, ?_⟩, this.1, this.2⟩ <;> simp_all
+  | xcData =>
+    simp only [absStep] at hstep
+    split at hstep
+    · simp at hstep
+    · rename_i hex
+      simp only [Option.some.injEq] at hstep
+      subst hstep
+      have hex' : a.extras = false := by simpa using hex
+      have hce := r5 hex'
+      have hw : (doAction .xcData p w).2 = freeAll [p.xcData] w := rfl
+      have hp : (doAction .xcData p w).1 = { p with xcData := none, chanExtra := [] } := rfl
+      rw [hw, hp]
+      have := free_fields p { p with xcData := none, chanExtra := [] } w B [p.xcData] hO (by
+        intro u; rw [toks_count, toks_count]
+        cases p.flowLoop <;> cases p.virtChannel <;> cases p.xcData <;> simp [List.count_cons, hce] <;> omega)
+      refine ⟨⟨?_, ?_, ?_, ?_, ?_, ?_, ?_⟩, this.1, this.2⟩ <;> simp_all
+  | virtOff =>
+    simp only [absStep] at hstep
+    split at hstep
+    · rename_i hva
+      simp only [Option.some.injEq] at hstep
+      subst hstep
+      have hok := r6 hva
+      have hne : ¬ (p.voiceArray = none ∧ ¬ p.paula = []) := by
+        rcases hok with h | h
+        · cases hv : p.voiceArray <;> simp_all
+        · simp [h]
+      have hw : (doAction .virtOff p w).2 = freeAll (p.paula ++ [p.voiceArray, p.virtChannel]) w := by
+        simp [doAction, virtOff, hne, freeAll_append, freeAll]
+      have hp : (doAction .virtOff p w).1 =
+          { p with voiceArray := none, paula := [], virtChannel := none, maxvoc := 0, virtChannels := 0 } := rfl
+      rw [hw, hp]
+      have := free_fields p { p with voiceArray := none, paula := [], virtChannel := none, maxvoc := 0, virtChannels := 0 }
+        w B (p.paula ++ [p.voiceArray, p.virtChannel]) hO (by
+        intro u; rw [toks_count, toks_count, ptrs_append, List.count_append]
+        cases p.flowLoop <;> cases p.virtChannel <;> cases p.xcData <;> cases p.buffer <;> cases p.buf32 <;>
+          cases p.voiceArray <;> simp [List.count_cons] <;> omega)
+      refine ⟨⟨?_, ?_, ?_, ?_, ?_, ?_, ?_⟩, this.1, this.2⟩ <;> simp_all
+    · simp at hstep
+  | chanExtras =>
+    simp only [absStep] at hstep
+    split at hstep
+    · rename_i hxc
+      simp only [Option.some.injEq] at hstep
+      subst hstep
+      have hok := r7 hxc
+      have hne : ¬ (p.xcData = none ∧ ¬ p.chanExtra = []) := by
+        rcases hok with h | h
+        · cases hv : p.xcData <;> simp_all
+        · simp [h]
+      have hw : (doAction .chanExtras p w).2 = freeAll p.chanExtra w := by
+        simp [doAction, hne]
+      have hp : (doAction .chanExtras p w).1 = { p with chanExtra := p.chanExtra.map fun _ => none } := rfl
+      rw [hw, hp]
+      have := free_fields p { p with chanExtra := p.chanExtra.map fun _ => none } w B p.chanExtra hO (by
+        intro u; rw [toks_count, toks_count]
+        simp [ptrs_map_none])
+      refine ⟨⟨?_, ?_, ?_, ?_, ?_, ?_, ?_⟩, this.1, this.2⟩ <;> simp_all [ptrs_map_none]
+    · simp at hstep
+
+
+
+theorem doActions_run (l : List Action) : ∀ (a f : Abs) (p : Player) (w : World) (B : List Tok),
+    absRun l a = some f → Rel a p → Owns p w B →
+    Rel f (doActions l p w).1 ∧ Owns (doActions l p w).1 (doActions l p w).2 B ∧ (doActions l p w).2.bad = w.bad := by
+  induction l with
+  | nil =>
+    intro a f p w B h hR hO
+    simp only [absRun, Option.some.injEq] at h
+    subst h
+    exact ⟨hR, hO, rfl⟩
+  | cons act l ih =>
+    intro a f p w B h hR hO
+    simp only [absRun] at h
+    cases hs : absStep act a with
+    | none => simp [hs] at h
+    | some a' =>
+      simp only [hs] at h
+      obtain ⟨h1, h2, h3⟩ := doAction_step act a a' p w B hs hR hO
+      obtain ⟨g1, g2, g3⟩ := ih a' f _ _ B h h1 h2
+      refine ⟨g1, g2, ?_⟩
+      simp only [doActions]
+      rw [g3, h3]
+
+theorem ptrs_replicate_none (n : Nat) : ptrs (List.replicate n none) = [] := by
+  induction n with
+  | zero => rfl
+  | succ n ih => simpa [List.replicate_succ] using ih
+
+theorem allocLoop_spec (k : Kind) : ∀ (n i : Nat) (w : World),
+    (allocLoop k n i w).2.2.bad = w.bad ∧
+    ∀ u, (allocLoop k n i w).2.2.live.count u = w.live.count u + (ptrs (allocLoop k n i w).1).count u := by
+  intro n
+  induction n with
+  | zero => intro i w; simp [allocLoop]
+  | succ n ih =>
+    intro i w
+    unfold allocLoop
+    rcases alloc_cases w ⟨k, i⟩ with ha | ha <;> rw [ha]
+    · simp [ptrs_replicate_none]
+    · obtain ⟨b, c⟩ := ih (i + 1) { w with oracle := w.oracle.tail, nalloc := w.nalloc + 1, live := ⟨k, i⟩ :: w.live }
+      refine ⟨by simpa using b, ?_⟩
+      intro u
+      have := c u
+      simp only [ptrs_cons_some, List.count_cons] at this ⊢
+      omega
+
+/-- a released player owns nothing -/
+theorem released_toks (f : Abs) (p : Player) (hf : f.released = true) (hR : Rel f p) : p.toks = [] := by
+  simp only [Abs.released, Bool.and_eq_true, Bool.not_eq_true'] at hf
+  obtain ⟨⟨⟨⟨m, v⟩, fl⟩, x⟩, e⟩ := hf
+  obtain ⟨r1, r2, r3, r4, r5, _, _⟩ := hR
+  obtain ⟨a1, a2⟩ := r1 m
+  obtain ⟨b1, b2, b3⟩ := r2 v
+  simp [Player.toks, a1, a2, b1, b2, b3, r3 fl, r4 x, r5 e]
+
+/-- failure exit: with a sound table everything is released and the code is negative -/
+theorem startFail_spec (cfg : StartCfg) (site : Site) (hs : cfg.soundAt site = true) (code : Int) (hc : code < 0)
+    (c : Ctx) (p : Player) (w : World) (B : List Tok) (hR : Rel site.entry p) (hO : Owns p w B) :
+    let r := startFail cfg site code c p w
+    r.1 < 0 ∧ r.2.2.bad = w.bad ∧ r.2.1.state = c.state ∧ r.2.1.player.toks = [] ∧
+      (∀ u, r.2.2.live.count u = B.count u) := by
+  simp only [StartCfg.soundAt, Bool.and_eq_true] at hs
+  obtain ⟨hneg, hrun⟩ := hs
+  cases hf : absRun (cfg.cleanup site) site.entry with
+  | none => simp [hf] at hrun
+  | some f =>
+    simp only [hf] at hrun
+    obtain ⟨g1, g2, g3⟩ := doActions_run _ _ f p w B hf hR hO
+    have ht := released_toks f _ hrun g1
+    simp only [startFail, hneg, if_true]
+    refine ⟨hc, g3, trivial, ht, ?_⟩
+    intro u
+    have := g2 u
+    simp only [ht, List.count_nil, Nat.add_zero] at this
+    exact this
+
+
+
+theorem owns_empty (w : World) : Owns {} w w.live := by
+  intro u; simp [Player.toks]
+
+theorem alloc_owns (p p' : Player) (w : World) (B : List Tok) (t : Tok) (hO : Owns p w B)
+    (h : ∀ u, p'.toks.count u = p.toks.count u + [t].count u) :
+    Owns p' { w with oracle := w.oracle.tail, nalloc := w.nalloc + 1, live := t :: w.live } B := by
+  intro u
+  have := hO u; have := h u
+  simp only [List.count_cons, List.count_nil] at *
+  omega
+
+theorem mixerOn_spec (w : World) :
+    let r := mixerOn {} w
+    r.2.2.bad = w.bad ∧ Owns r.2.1 r.2.2 w.live ∧
+    (r.1 < 0 → Rel Site.mixerOn.entry r.2.1) ∧
+    (¬ r.1 < 0 → r.2.1 = { buffer := some ⟨.mixBuffer, 0⟩, buf32 := some ⟨.mixBuf32, 0⟩ }) := by
+  unfold mixerOn
+  rcases alloc_cases w ⟨.mixBuffer, 0⟩ with ha | ha <;> rw [ha]
+  · refine ⟨rfl, ?_, ?_, ?_⟩
+    · intro u; simp [Player.toks]
+    · intro _; simp [Rel, Site.entry]
+    · intro h; simp at h
+  · simp only
+    generalize hw1 : ({ w with oracle := w.oracle.tail, nalloc := w.nalloc + 1, live := ⟨.mixBuffer, 0⟩ :: w.live } : World) = w1
+    have hl1 : w1.live = ⟨.mixBuffer, 0⟩ :: w.live := by subst hw1; rfl
+    have hb1 : w1.bad = w.bad := by subst hw1; rfl
+    rcases alloc_cases w1 ⟨.mixBuf32, 0⟩ with hb | hb <;> rw [hb]
+    · refine ⟨?_, ?_, ?_, ?_⟩
+      · simp [World.free, hl1, hb1]
+      · intro u; simp [World.free, hl1, Player.toks]
+      · intro _; simp [Rel, Site.entry]
+      · intro h; simp at h
+    · refine ⟨by simp [hb1], ?_, ?_, ?_⟩
+      · intro u; simp [hl1, Player.toks, List.count_cons]; omega
+      · intro h; simp at h
+      · intro _; rfl
+
+
+
+theorem toks_count' (p : Player) (u : Tok) :
+    p.toks.count u = (ptrs [p.buffer]).count u + (ptrs [p.buf32]).count u + (ptrs [p.voiceArray]).count u
+      + (ptrs p.paula).count u + (ptrs [p.virtChannel]).count u + (ptrs [p.flowLoop]).count u
+      + (ptrs [p.xcData]).count u + (ptrs p.chanExtra).count u := by
+  rw [toks_count]
+  cases p.buffer <;> cases p.buf32 <;> cases p.voiceArray <;> cases p.virtChannel <;> cases p.flowLoop <;> cases p.xcData <;>
+    simp [List.count_cons] <;> omega
+
+theorem ptrs_ite_chan (b : Bool) (n : Nat) : ptrs (if b then List.replicate n none else []) = [] := by
+  cases b <;> simp [ptrs_replicate_none]
+
+theorem virtOn_spec (pp : StartParams) (p : Player) (w : World) (B : List Tok) (hO : Owns p w B)
+    (hva : p.voiceArray = none) (hvc : p.virtChannel = none) (hpa : ptrs p.paula = []) (hce : ptrs p.chanExtra = []) :
+    let r := virtOn pp p w
+    r.2.2.bad = w.bad ∧ Owns r.2.1 r.2.2 B ∧ r.2.1.buffer = p.buffer ∧ r.2.1.buf32 = p.buf32 ∧
+      r.2.1.flowLoop = p.flowLoop ∧ r.2.1.xcData = p.xcData ∧ ptrs r.2.1.chanExtra = [] ∧
+      (r.1 < 0 → r.2.1.voiceArray = none ∧ r.2.1.virtChannel = none ∧ ptrs r.2.1.paula = []) ∧
+      (¬ r.1 < 0 → r.2.1.voiceArray.isSome = true) := by
+  unfold virtOn
+  generalize hp1 : virtInit pp p = p1
+  have f1 : p1.buffer = p.buffer ∧ p1.buf32 = p.buf32 ∧ p1.flowLoop = p.flowLoop ∧ p1.xcData = p.xcData ∧
+      p1.voiceArray = none ∧ p1.virtChannel = none ∧ ptrs p1.paula = [] ∧ ptrs p1.chanExtra = [] := by
+    subst hp1; simp [virtInit, hva, hvc, ptrs_replicate_none, ptrs_ite_chan]
+  obtain ⟨e1, e2, e3, e4, e5, e6, e7, e8⟩ := f1
+  have hO1 : Owns p1 w B := by
+    intro u; have := hO u
+    rw [toks_count'] at this ⊢
+    simp only [e1, e2, e3, e4, e5, e6, e7, e8, hva, hvc, hpa, hce] at this ⊢
+    exact this
+  unfold virtAlloc
+  rcases alloc_cases w ⟨.voiceArray, 0⟩ with ha | ha <;> rw [ha]
+  · simp only
+    refine ⟨trivial, ?_, e1, e2, e3, e4, e8, ?_, ?_⟩
+    · intro u; have := hO1 u
+      rw [toks_count'] at this ⊢
+      simpa [e5] using this
+    · intro _; exact ⟨trivial, e6, e7⟩
+    · intro h; simp at h
+  · simp only
+    generalize hw1 : ({ w with oracle := w.oracle.tail, nalloc := w.nalloc + 1, live := ⟨.voiceArray, 0⟩ :: w.live } : World) = w1
+    have hl1 : ∀ u, w1.live.count u = w.live.count u + [(⟨.voiceArray, 0⟩ : Tok)].count u := by
+      subst hw1; intro u; simp [List.count_cons]
+    have hb1 : w1.bad = w.bad := by subst hw1; rfl
+    generalize hr : (if pp.amiga = true then allocLoop .paula pp.maxvoc 0 w1 else (List.replicate pp.maxvoc none, true, w1)) = r
+    have hrs : r.2.2.bad = w1.bad ∧ ∀ u, r.2.2.live.count u = w1.live.count u + (ptrs r.1).count u := by
+      subst hr
+      cases pp.amiga
+      · simp [ptrs_replicate_none]
+      · simpa using allocLoop_spec .paula pp.maxvoc 0 w1
+    obtain ⟨hrb, hrl⟩ := hrs
+    -- the player that owns the voice array and the Paula states
+    have hO2 : Owns { p1 with voiceArray := some ⟨.voiceArray, 0⟩, paula := r.1 } r.2.2 B := by
+      intro u
+      have := hO1 u; have := hrl u; have := hl1 u
+      rw [toks_count'] at *
+      simp only [e5, e7] at *
+      simp [List.count_cons] at *
+      omega
+    cases hok : r.2.1
+    · -- err2 after a failed Paula allocation
+      simp only [Bool.false_eq_true, if_false]
+      have := free_fields _ { p1 with voiceArray := none } r.2.2 B (r.1 ++ [some ⟨.voiceArray, 0⟩]) hO2 (by
+        intro u; rw [toks_count', toks_count', ptrs_append, List.count_append]
+        simp [e7, List.count_cons]; omega)
+      rw [freeAll_append] at this
+      refine ⟨by rw [show ((freeAll r.1 r.2.2).free (some ⟨.voiceArray, 0⟩)) = freeAll [some ⟨.voiceArray, 0⟩] (freeAll r.1 r.2.2) from rfl, this.2, hrb, hb1],
+        this.1, e1, e2, e3, e4, e8, ?_, ?_⟩
+      · intro _; exact ⟨trivial, e6, e7⟩
+      · intro h; simp at h
+    · simp only [if_true]
+      rcases alloc_cases r.2.2 ⟨.virtChannel, 0⟩ with hc | hc <;> rw [hc]
+      · -- err2 after a failed virt_channel allocation
+        simp only
+        generalize hw3 : ({ r.2.2 with oracle := r.2.2.oracle.tail, nalloc := r.2.2.nalloc + 1 } : World) = w3
+        have hO3 : Owns { p1 with voiceArray := some ⟨.voiceArray, 0⟩, paula := r.1 } w3 B := by
+          subst hw3; exact hO2
+        have hb3 : w3.bad = r.2.2.bad := by subst hw3; rfl
+        have := free_fields _ { p1 with voiceArray := none, virtChannel := none } w3 B (r.1 ++ [some ⟨.voiceArray, 0⟩]) hO3 (by
+          intro u; rw [toks_count', toks_count', ptrs_append, List.count_append]
+          simp [e7, e6, List.count_cons]; omega)
+        rw [freeAll_append] at this
+        refine ⟨by rw [show ((freeAll r.1 w3).free (some ⟨.voiceArray, 0⟩)) = freeAll [some ⟨.voiceArray, 0⟩] (freeAll r.1 w3) from rfl, this.2, hb3, hrb, hb1],
+          this.1, e1, e2, e3, e4, e8, ?_, ?_⟩
+        · intro _; exact ⟨trivial, trivial, e7⟩
+        · intro h; simp at h
+      · simp only
+        refine ⟨by simp [hrb, hb1], ?_, e1, e2, e3, e4, e8, ?_, ?_⟩
+        · intro u
+          have := hO2 u
+          rw [toks_count'] at this ⊢
+          simp [e6, List.count_cons] at this ⊢
+          omega
+        · intro h; simp at h
+        · intro _; rfl
+
+
+
+theorem start_atomic (cfg : StartCfg) (hs : cfg.Sound = true) (pp : StartParams) (w : World) :
+    let r := startPlayer cfg pp true { state := .loaded, player := {} } w
+    r.2.2.bad = w.bad ∧
+    (r.1 < 0 → r.2.1.state = .loaded ∧ r.2.1.player.toks = [] ∧ ∀ u, r.2.2.live.count u = w.live.count u) ∧
+    (¬ r.1 < 0 → r.1 = 0 ∧ r.2.1.state = .playing ∧ Owns r.2.1.player r.2.2 w.live) := by
+  simp only [StartCfg.Sound, allSites, List.all_cons, List.all_nil, Bool.and_true, Bool.and_eq_true] at hs
+  obtain ⟨s1, s2, s3, s4, s5⟩ := hs
+  unfold startPlayer
+  simp only [Bool.not_true, Bool.false_eq_true, if_false, reduceCtorEq]
+  have hend : endPlayer { state := .loaded, player := {} } w = ({ state := .loaded, player := {} }, w) := by
+    simp [endPlayer]
+  rw [hend]
+  simp only
+  obtain ⟨mb, mO, mfail, mok⟩ := mixerOn_spec w
+  generalize mixerOn {} w = r1 at mb mO mfail mok
+  by_cases h1 : r1.1 < 0
+  · simp only [h1, if_true]
+    obtain ⟨a, b, c, d, e⟩ := startFail_spec cfg .mixerOn s1 errInternal (by decide) { state := .loaded, player := {} }
+      r1.2.1 r1.2.2 w.live (mfail h1) mO
+    refine ⟨by rw [b, mb], fun _ => ⟨c, d, e⟩, fun h => absurd a h⟩
+  · simp only [h1, if_false]
+    have hp1 := mok h1
+    obtain ⟨vb, vO, v1, v2, v3, v4, v5, vfail, vok⟩ := virtOn_spec pp r1.2.1 r1.2.2 w.live mO
+      (by rw [hp1]) (by rw [hp1]) (by rw [hp1]; rfl) (by rw [hp1]; rfl)
+    generalize virtOn pp r1.2.1 r1.2.2 = r2 at vb vO v1 v2 v3 v4 v5 vfail vok
+    have v3' : r2.2.1.flowLoop = none := by rw [v3, hp1]
+    have v4' : r2.2.1.xcData = none := by rw [v4, hp1]
+    by_cases h2 : r2.1 < 0
+    · simp only [h2, if_true]
+      obtain ⟨f1, f2, f3⟩ := vfail h2
+      have hR : Rel Site.virtOn.entry r2.2.1 := by
+        simp [Rel, Site.entry, f1, f2, f3, v3', v4', v5]
+      obtain ⟨a, b, c, d, e⟩ := startFail_spec cfg .virtOn s2 errInternal (by decide) { state := .loaded, player := {} }
+        r2.2.1 r2.2.2 w.live hR vO
+      refine ⟨by rw [b, vb, mb], fun _ => ⟨c, d, e⟩, fun h => absurd a h⟩
+    · simp only [h2, if_false]
+      have hva := vok h2
+      rcases alloc_cases r2.2.2 ⟨.flowLoop, 0⟩ with ha | ha <;> rw [ha] <;> simp only
+      · -- f->loop fails
+        have hO3 : Owns { r2.2.1 with flowLoop := none } { r2.2.2 with oracle := r2.2.2.oracle.tail, nalloc := r2.2.2.nalloc + 1 } w.live := by
+          intro u; have := vO u; rw [toks_count'] at this ⊢; simpa [v3'] using this
+        have hR : Rel Site.flowLoop.entry { r2.2.1 with flowLoop := none } := by
+          simp [Rel, Site.entry, v4', v5, hva]
+        obtain ⟨a, b, c, d, e⟩ := startFail_spec cfg .flowLoop s3 errSystem (by decide) { state := .loaded, player := {} }
+          _ _ w.live hR hO3
+        refine ⟨by rw [b]; simp [vb, mb], fun _ => ⟨c, d, e⟩, fun h => absurd a h⟩
+      · have hO3 : Owns { r2.2.1 with flowLoop := some ⟨.flowLoop, 0⟩ }
+            { r2.2.2 with oracle := r2.2.2.oracle.tail, nalloc := r2.2.2.nalloc + 1, live := ⟨.flowLoop, 0⟩ :: r2.2.2.live } w.live := by
+          intro u; have := vO u; rw [toks_count'] at this ⊢
+          simp [v3', List.count_cons] at this ⊢; omega
+        generalize hw3 : ({ r2.2.2 with oracle := r2.2.2.oracle.tail, nalloc := r2.2.2.nalloc + 1, live := ⟨.flowLoop, 0⟩ :: r2.2.2.live } : World) = w3 at hO3 ⊢
+        have hb3 : w3.bad = w.bad := by subst hw3; simp [vb, mb]
+        have g1 : r2.2.1.xcData = none := v4'
+        have g2 : ptrs r2.2.1.chanExtra = [] := v5
+        have g3 : r2.2.1.voiceArray.isSome = true := hva
+        rcases alloc_cases w3 ⟨.xcData, 0⟩ with hx | hx <;> rw [hx] <;> simp only
+        · -- xc_data fails
+          have hO4 : Owns { r2.2.1 with flowLoop := some ⟨.flowLoop, 0⟩, xcData := none }
+              { w3 with oracle := w3.oracle.tail, nalloc := w3.nalloc + 1 } w.live := by
+            intro u; have := hO3 u; rw [toks_count'] at this ⊢; simpa [g1] using this
+          have hR : Rel Site.xcData.entry { r2.2.1 with flowLoop := some ⟨.flowLoop, 0⟩, xcData := none } := by
+            simp [Rel, Site.entry, g2, g3]
+          obtain ⟨a, b, c, d, e⟩ := startFail_spec cfg .xcData s4 errSystem (by decide) { state := .loaded, player := {} }
+            _ _ w.live hR hO4
+          refine ⟨by rw [b]; simp [hb3], fun _ => ⟨c, d, e⟩, fun h => absurd a h⟩
+        · have hO4 : Owns { r2.2.1 with flowLoop := some ⟨.flowLoop, 0⟩, xcData := some ⟨.xcData, 0⟩ }
+              { w3 with oracle := w3.oracle.tail, nalloc := w3.nalloc + 1, live := ⟨.xcData, 0⟩ :: w3.live } w.live := by
+            intro u; have := hO3 u; rw [toks_count'] at this ⊢
+            simp [g1, List.count_cons] at this ⊢; omega
+          generalize hw4 : ({ w3 with oracle := w3.oracle.tail, nalloc := w3.nalloc + 1, live := ⟨.xcData, 0⟩ :: w3.live } : World) = w4 at hO4 ⊢
+          have hb4 : w4.bad = w.bad := by subst hw4; simp [hb3]
+          generalize hr : (if pp.extras = true then allocLoop .chanExtra pp.virtch 0 w4 else (List.replicate pp.virtch none, true, w4)) = r
+          have hrs : r.2.2.bad = w4.bad ∧ ∀ u, r.2.2.live.count u = w4.live.count u + (ptrs r.1).count u := by
+            subst hr
+            cases pp.extras
+            · simp [ptrs_replicate_none]
+            · simpa using allocLoop_spec .chanExtra pp.virtch 0 w4
+          obtain ⟨hrb, hrl⟩ := hrs
+          have hO5 : Owns { r2.2.1 with flowLoop := some ⟨.flowLoop, 0⟩, xcData := some ⟨.xcData, 0⟩, chanExtra := r.1 } r.2.2 w.live := by
+            intro u; have := hO4 u; have := hrl u; rw [toks_count'] at *
+            simp [g2] at *; omega
+          cases hok : r.2.1
+          · simp only [Bool.false_eq_true, if_false]
+            have hR : Rel Site.chanExtras.entry
+                { r2.2.1 with flowLoop := some ⟨.flowLoop, 0⟩, xcData := some ⟨.xcData, 0⟩, chanExtra := r.1 } := by
+              simp [Rel, Site.entry, g3]
+            obtain ⟨a, b, c, d, e⟩ := startFail_spec cfg .chanExtras s5 errSystem (by decide) { state := .loaded, player := {} }
+              _ _ w.live hR hO5
+            refine ⟨by rw [b, hrb, hb4], fun _ => ⟨c, d, e⟩, fun h => absurd a h⟩
+          · simp only [if_true]
+            refine ⟨by rw [hrb, hb4], fun h => by simp at h, fun _ => ⟨trivial, trivial, hO5⟩⟩
 
 
 end Xmp.Resource
